@@ -372,7 +372,7 @@ Definition d_generate_bounds (d : dexpansion) : list bound :=
           | f :: _ => if contains_generics (d_params d) (fty f) then [BTy (ftid f) (d_trait d)] else []
           | [] => []
           end
-        else []),
+        else []) ++ map BUser (d_user_bounds d),        (* explicit bounds apply without a literal too *)
        has_shared)
     end in
   own ++ (if mix then
@@ -431,7 +431,7 @@ Definition d_expand_struct (d : dexpansion) : result (body * list bound) :=
 Record gexpansion := {
   g_fmt : option fmt_attr;             (* struct- or variant-level format *)
   g_user_bounds : list N;
-  g_name : str;                        (* ident.to_string() *)
+  g_name : str;                        (* ident.unraw().to_string() *)
   g_fields : fields;
   g_params : list ident
 }.
